@@ -100,60 +100,83 @@ theorem convert_perm (s : Scalar) {l₁ l₂ : List Entry} (p : l₁.Perm l₂)
     l₁.foldl (convertStep s) (.ok reg) = l₂.foldl (convertStep s) (.ok reg) :=
   p.foldl_eq' (fun x hx y hy z => convertStep_comm s x y (hint x hx) (hint y hy) (hid x hx y hy) z) _
 
-/-- loop invariant of the promotion loop: no panic so far and every name of the enum still maps to a
-    one-element symbol vector in the parent scope -/
+/-- one iteration of the promotion loop reads nothing of its element but the name -/
+theorem promoteStep_congr (x y : Entry) (h : x.name = y.name) (z : Except Failure (Scope × Nat)) :
+    promoteStep z x = promoteStep z y := by
+  cases z with
+  | error f => rfl
+  | ok st => obtain ⟨parent, n⟩ := st; simp only [promoteStep, h]
+
+/-- two iterations of the promotion loop commute on EVERY state: under different names they touch different
+    entries of the parent scope (and a missing entry panics with the constant `unwrap` message whichever comes
+    first); under the same name they are the same iteration.  No invariant is needed since fix `fe5dd8d` removed
+    `assert_eq!(symbols.len(), 1)`: the vector of a name may hold other symbols (a constant buffer block). -/
+theorem promoteStep_comm (x y : Entry) (z : Except Failure (Scope × Nat)) :
+    promoteStep (promoteStep z x) y = promoteStep (promoteStep z y) x := by
+  by_cases hne : x.name = y.name
+  · rw [promoteStep_congr y x hne.symm, promoteStep_congr y x hne.symm]
+  · cases z with
+    | error f => simp [promoteStep]
+    | ok st =>
+      obtain ⟨parent, n⟩ := st
+      have e1 : ∀ v, upd parent x.name v y.name = parent y.name := by
+        intro v; simp [upd, Ne.symm hne]
+      have e2 : ∀ v, upd parent y.name v x.name = parent x.name := by
+        intro v; simp [upd, hne]
+      cases hx : parent x.name <;> cases hy : parent y.name <;>
+        simp only [promoteStep, hx, hy, e1, e2]
+      rw [upd_comm parent hne, Nat.add_right_comm]
+
+/-- loop 4: parent scope and replacement count (or the constant `unwrap` panic) after the promotion loop do not
+    depend on the order — for EVERY parent scope: a name may map to a vector of any length (enum value next to a
+    constant buffer block of the same name, accepted since `fe5dd8d`), or to nothing -/
+theorem promote_perm {l₁ l₂ : List Entry} (p : l₁.Perm l₂) (st : Except Failure (Scope × Nat)) :
+    l₁.foldl promoteStep st = l₂.foldl promoteStep st :=
+  p.foldl_eq' (fun x _ y _ z => promoteStep_comm x y z) _
+
+/-- loop invariant of the promotion loop: no panic so far and every name of the enum maps to SOME symbol vector
+    in the parent scope (what `register_enum_value` leaves; the length is free since `fe5dd8d`) -/
 def PromoteInv (l : List Entry) (st : Except Failure (Scope × Nat)) : Prop :=
-  ∃ parent n, st = .ok (parent, n) ∧ ∀ e ∈ l, ∃ syms, parent e.name = some syms ∧ syms.length = 1
+  ∃ parent n, st = .ok (parent, n) ∧ ∀ e ∈ l, ∃ syms, parent e.name = some syms
 
 theorem promoteStep_keep (l : List Entry) (x : Entry) (hx : x ∈ l) (z : Except Failure (Scope × Nat))
     (hz : PromoteInv l z) : PromoteInv l (promoteStep z x) := by
   obtain ⟨parent, n, rfl, hall⟩ := hz
-  obtain ⟨syms, hs, hlen⟩ := hall x hx
+  obtain ⟨syms, hs⟩ := hall x hx
   refine ⟨upd parent x.name (syms.map Sym.promote), n + (syms.filter Sym.isUntyped).length, ?_, ?_⟩
-  · simp [promoteStep, hs, hlen]
+  · simp [promoteStep, hs]
   · intro e he
     by_cases hn : e.name = x.name
-    · exact ⟨syms.map Sym.promote, by simp [upd, hn], by simpa using hlen⟩
-    · obtain ⟨syms', hs', hlen'⟩ := hall e he
-      exact ⟨syms', by simp [upd, hn, hs'], hlen'⟩
+    · exact ⟨syms.map Sym.promote, by simp [upd, hn]⟩
+    · obtain ⟨syms', hs'⟩ := hall e he
+      exact ⟨syms', by simp [upd, hn, hs']⟩
 
-theorem promoteStep_comm (l : List Entry) (x y : Entry) (hx : x ∈ l) (hy : y ∈ l)
-    (hname : x.name = y.name → x = y) (z : Except Failure (Scope × Nat)) (hz : PromoteInv l z) :
-    promoteStep (promoteStep z x) y = promoteStep (promoteStep z y) x := by
-  by_cases hxy : x = y
-  · subst hxy; rfl
-  · have hne : x.name ≠ y.name := fun h => hxy (hname h)
-    obtain ⟨parent, n, rfl, hall⟩ := hz
-    obtain ⟨sx, hsx, hlx⟩ := hall x hx
-    obtain ⟨sy, hsy, hly⟩ := hall y hy
-    have h1 : upd parent x.name (sx.map Sym.promote) y.name = some sy := by
-      simp [upd, Ne.symm hne, hsy]
-    have h2 : upd parent y.name (sy.map Sym.promote) x.name = some sx := by
-      simp [upd, hne, hsx]
-    simp only [promoteStep, hsx, hsy, hlx, hly, h1, h2, ne_eq, not_true_eq_false, if_false]
-    rw [upd_comm parent hne, Nat.add_right_comm]
+/-- the promotion loop does not panic when every name has an entry in the parent scope (of any length) -/
+theorem promote_ok {l : List Entry} (parent : Scope) (hparent : ∀ e ∈ l, ∃ syms, parent e.name = some syms) :
+    ∃ parent' n, l.foldl promoteStep (.ok (parent, 0)) = .ok (parent', n) := by
+  suffices h : ∀ (l' : List Entry), (∀ e ∈ l', e ∈ l) → ∀ st, PromoteInv l st → PromoteInv l (l'.foldl promoteStep st) by
+    obtain ⟨p', n, hp, _⟩ := h l (fun _ h => h) _ ⟨parent, 0, rfl, hparent⟩
+    exact ⟨p', n, hp⟩
+  intro l'
+  induction l' with
+  | nil => intro _ st hst; exact hst
+  | cons a as ih =>
+    intro hsub st hst
+    simp only [List.foldl_cons]
+    exact ih (fun e he => hsub e (.tail _ he)) _ (promoteStep_keep l a (hsub a (.head _)) st hst)
 
-/-- loop 4: parent scope and replacement count after the promotion loop do not depend on the order, provided
-    every name of the enum maps to a one-element vector in the parent scope (what `register_enum_value`
-    establishes: it rejects a name that is already defined there and then pushes onto a fresh vector) -/
-theorem promote_perm {l₁ l₂ : List Entry} (p : l₁.Perm l₂)
-    (hname : ∀ x ∈ l₁, ∀ y ∈ l₁, x.name = y.name → x = y) (parent : Scope)
-    (hparent : ∀ e ∈ l₁, ∃ syms, parent e.name = some syms ∧ syms.length = 1) :
-    l₁.foldl promoteStep (.ok (parent, 0)) = l₂.foldl promoteStep (.ok (parent, 0)) :=
-  foldl_perm_of_invariant (Inv := PromoteInv l₁) p
-    (fun x hx z hz => promoteStep_keep l₁ x hx z hz)
-    (fun x hx y hy z hz => promoteStep_comm l₁ x y hx hy (hname x hx y hy) z hz)
-    _ ⟨parent, 0, rfl, hparent⟩
-
-theorem reinsertStep_comm (x y : Entry) (hname : x.name = y.name → x = y) (z : Except Failure Scope) :
+/-- two iterations of the reinsertion loop commute on every state: under different names they fill different
+    entries; under one name the second of them panics with the constant message, whichever it is -/
+theorem reinsertStep_comm (x y : Entry) (z : Except Failure Scope) :
     reinsertStep (reinsertStep z x) y = reinsertStep (reinsertStep z y) x := by
-  by_cases hxy : x = y
-  · subst hxy; rfl
-  · have hne : x.name ≠ y.name := fun h => hxy (hname h)
-    cases z with
-    | error f => simp [reinsertStep]
-    | ok scope =>
-      have e1 : ∀ v, upd scope x.name v y.name = scope y.name := by
+  cases z with
+  | error f => simp [reinsertStep]
+  | ok scope =>
+    by_cases hne : x.name = y.name
+    · cases hx : scope x.name with
+      | some v => simp [reinsertStep, hx, ← hne]
+      | none => simp [reinsertStep, hx, ← hne, upd]
+    · have e1 : ∀ v, upd scope x.name v y.name = scope y.name := by
         intro v; simp [upd, Ne.symm hne]
       have e2 : ∀ v, upd scope y.name v x.name = scope x.name := by
         intro v; simp [upd, hne]
@@ -161,11 +184,10 @@ theorem reinsertStep_comm (x y : Entry) (hname : x.name = y.name → x = y) (z :
         simp only [reinsertStep, hx, hy, e1, e2]
       rw [upd_comm scope hne]
 
-/-- loop 5: the re-filled enum scope does not depend on the order (names are distinct map keys); the panic
-    message of the impossible duplicate is a constant -/
-theorem reinsert_perm {l₁ l₂ : List Entry} (p : l₁.Perm l₂)
-    (hname : ∀ x ∈ l₁, ∀ y ∈ l₁, x.name = y.name → x = y) (scope : Scope) :
+/-- loop 5: the re-filled enum scope does not depend on the order; the panic message of a duplicate name is a
+    constant, so not even distinct names are needed -/
+theorem reinsert_perm {l₁ l₂ : List Entry} (p : l₁.Perm l₂) (scope : Scope) :
     l₁.foldl reinsertStep (.ok scope) = l₂.foldl reinsertStep (.ok scope) :=
-  p.foldl_eq' (fun x hx y hy z => reinsertStep_comm x y (hname x hx y hy) z) _
+  p.foldl_eq' (fun x _ y _ z => reinsertStep_comm x y z) _
 
 end RsslVerif.Lemmas.EnumRange
